@@ -16,7 +16,7 @@ pub static PROP: Prop = Prop {
     rule: "(70%) write-once DAGs over {add, sub, mul, neg, xor, and, not, const k, dup, swap, sum3, sink} on wrapping u64 with fan-out, repeated reads, permuted node and edge numbering and random inputs, compared with a memoised recursive reference interpreter, plus a second random renumbering of the same diagram; (30%) arbitrary generated diagrams for the refusal clause (None iff the dependency relation has a cycle); non-trivial = >= 3 operations, an operation whose inputs come from different depths, and a shared (fan-out) node; distinct = hash of (diagram, inputs)",
     assumptions: &["values are only compared inside the write-once domain the property names; on arbitrary diagrams only definedness (Some/None) is compared"],
     fixed: Some(fixed),
-    scale: None,
+    scale: Some(super::scale::c16),
 };
 
 pub const SIG: &[OpSpec] = &[
